@@ -537,6 +537,7 @@ func main() {
 		decline("token_enum", "no constants of type parser.token")
 	}
 	panicSites(l, &sb)
+	downgradeChain(l, &sb)
 	policyFuncs(l, &sb)
 	columnTables(l, &sb)
 	if err := os.WriteFile(os.Args[2], []byte(sb.String()), 0o644); err != nil {
